@@ -615,6 +615,11 @@ func (c *Ctx) Lockset(sp LockSpec) {
 		if lf.req > 0 && root && !exempt && !held {
 			local := false
 			for _, a := range lf.accesses {
+				if !a.write {
+					if _, wo := sp.WriteOnly[a.field]; wo {
+						continue // not reported locally, so it must not mask the propagated requirement
+					}
+				}
 				if a.state < need(a) {
 					local = true
 				}
